@@ -328,3 +328,240 @@ fn g_fetch_1_fetch() {
     vcover!();
     std::mem::forget(w);
 }
+
+// =============================================================================================
+// More stubs for the remaining glue functions
+// =============================================================================================
+/// What the stubbed `insert_memo` was given (recorded field by field while the memo is a typed local:
+/// reading it back through an integer-to-pointer cast makes CBMC run out of memory).
+#[derive(Copy, Clone)]
+pub(crate) struct Inserted {
+    pub calls: u32,
+    pub addr: usize,
+    pub value: Option<u32>,
+    pub verified_at: usize,
+    pub changed_at: usize,
+    pub durability: u8,
+    pub provisional: bool,
+    /// 0 derived, 1 derived-untracked, 2 assigned
+    pub origin_kind: u8,
+    pub assigned_by: Option<DatabaseKeyIndex>,
+    pub epoch: u8,
+}
+pub(crate) static mut INS: Inserted = Inserted { calls: 0, addr: 0, value: None, verified_at: 0, changed_at: 0, durability: 0, provisional: false, origin_kind: 0, assigned_by: None, epoch: 0 };
+pub(crate) fn stub_insert_memo<'db, C: Configuration>(_this: &'db IngredientImpl<C>, _zalsa: &'db Zalsa, _id: Id, memo: memo::Memo<C>, _mi: MemoIngredientIndex) -> &'db memo::Memo<C> {
+    let (kind, by) = match memo.header.origin() {
+        crate::zalsa_local::QueryOriginRef::Derived(_) => (0, None),
+        crate::zalsa_local::QueryOriginRef::DerivedUntracked(_) => (1, None),
+        crate::zalsa_local::QueryOriginRef::Assigned(k) => (2, Some(k)),
+    };
+    // SAFETY: every harness configuration has `Output = u32`
+    let value = unsafe { *(&memo.value as *const Option<C::Output<'static>> as *const Option<u32>) };
+    let rec = Inserted {
+        calls: 0,
+        addr: 0,
+        value,
+        verified_at: memo.header.verified_at.load().as_usize(),
+        changed_at: memo.header.revisions.changed_at.as_usize(),
+        durability: memo.header.revisions.durability.index() as u8,
+        provisional: memo.header.may_be_provisional(),
+        origin_kind: kind,
+        assigned_by: by,
+        epoch: memo.header.revisions.iteration().cancellation_count(),
+    };
+    let m: &'static memo::Memo<C> = Box::leak(Box::new(memo));
+    // SAFETY: single-threaded harness
+    unsafe {
+        let calls = INS.calls + 1;
+        INS = rec;
+        INS.calls = calls;
+        INS.addr = m as *const memo::Memo<C> as usize;
+        CUR_MEMO = INS.addr;
+    }
+    m
+}
+/// address of the memo header `diff_outputs` was called on (0 = not called)
+pub(crate) static mut DIFFED: usize = 0;
+impl MemoHeader {
+    pub(crate) fn verif_diff_outputs(&self, _zalsa: &Zalsa, _key: DatabaseKeyIndex, _completed_query: &crate::active_query::CompletedQuery) {
+        // SAFETY: single-threaded harness
+        unsafe { DIFFED = self as *const MemoHeader as usize };
+    }
+}
+/// Whether the harness allows `Cancelled::throw` at this point, and which variant was thrown.
+pub(crate) static mut THROW_ALLOWED: bool = false;
+#[cfg(kani)]
+pub(crate) fn stub_throw(c: crate::Cancelled) -> ! {
+    // SAFETY: single-threaded harness
+    assert!(unsafe { THROW_ALLOWED }, "cancellation/propagated panic thrown where the property forbids it");
+    assert!(matches!(c, crate::Cancelled::PropagatedPanic));
+    kani::cover!(true, "throw path reachable");
+    kani::assume(false);
+    loop {}
+}
+
+impl crate::tracked_struct::TrackedStructInDb for GKey {
+    fn database_key_index(_: &Zalsa, id: Id) -> DatabaseKeyIndex {
+        DatabaseKeyIndex::new(IngredientIndex::new(9), id)
+    }
+}
+
+//@ob id=G-SPEC-1 kind=C props=C10,C01 timeout=1800 fn=IngredientImpl::specify_and_record,ZalsaLocal::active_query_with_cycle_heads,ZalsaLocal::is_tracked_struct_of_active_query,ZalsaLocal::add_output flags=stubs,noreplay
+//@ pre: a creator query that is not part of a cycle is executing (real query stack) with any stamp (durability, changed_at <= current) and owns the struct `key` (real identity map); the key has no memo yet (the case with an older memo exhausts CBMC's memory and is not covered); it calls specify(key, v)
+//@ post: exactly one memo is stored; it holds v, is verified in the **current revision** (so a request later in this revision returns it without running the body), has origin Assigned(creator), the creator's durability, and changed_at = the creator's changed_at unless backdated to the old memo's; it is final (no cycle)
+//@ post: the claim is released (that the specified function is also recorded as an output edge of the creator is *not* checked here: reading the edge set back exhausts CBMC's memory)
+#[cfg(kani)]
+#[kani::proof]
+#[kani::unwind(5)]
+#[kani::stub(crate::sync::max_parallelism, crate::verif_support::one_core)]
+#[kani::stub(crate::function::sync::SyncTable::try_claim, crate::function::sync::verif::stub_try_claim)]
+#[kani::stub(crate::function::sync::ClaimGuard::drop_impl, crate::function::sync::ClaimGuard::verif_release)]
+#[kani::stub(crate::function::IngredientImpl::get_memo_from_table_for, stub_get_memo)]
+#[kani::stub(crate::function::IngredientImpl::insert_memo, stub_insert_memo)]
+#[kani::stub(crate::function::memo::MemoHeader::diff_outputs, crate::function::memo::MemoHeader::verif_diff_outputs)]
+#[kani::stub(crate::zalsa_local::ZalsaLocal::active_query_with_cycle_heads, crate::zalsa_local::ZalsaLocal::verif_active_query_no_cycle)]
+fn g_spec_1_specify_and_record() {
+    let w = world();
+    let cur = w.cur;
+    let (z, l) = w.db.zalsas();
+    let creator = vk::key(5, 3);
+    let frame = l.push_query(creator);
+    // the creator read something: any stamp
+    let (cd, cc) = (vk::any_durability(), vk::any_revision());
+    vk::assume(cc <= cur);
+    crate::zalsa_local::verif::set_top_stamp(l, cd, cc);
+    let (_, stamp) = l.active_query().unwrap();
+    // the creator created the struct `key` in this execution
+    let entity = <GKey as crate::tracked_struct::TrackedStructInDb>::database_key_index(z, w.id);
+    l.store_tracked_struct_id(crate::tracked_struct::verif::identity(9, 77, 0), w.id);
+    // an optional memo from an earlier revision
+    let stored: bool = false;
+    let (va, ca) = (vk::any_revision(), vk::any_revision());
+    vk::assume(ca <= va && va < cur);
+    let od = vk::any_durability();
+    let old_value: Option<u32> = if vk::any() { Some(vk::any()) } else { None };
+    let old = memo(old_value, va, od, ca);
+    // SAFETY: single-threaded harness
+    unsafe { CUR_MEMO = if stored { addr(old) } else { 0 } };
+    let v: u32 = vk::any();
+    w.ing.specify_and_record(&w.db, w.id, v);
+    // SAFETY: single-threaded harness
+    let (ins, diffed, claims, releases) = unsafe { (INS, DIFFED, crate::function::sync::verif::CLAIMS, crate::function::sync::verif::RELEASES) };
+    assert!(ins.calls == 1);
+    assert!(ins.value == Some(v));
+    assert!(ins.verified_at == cur.as_usize());
+    assert!(ins.origin_kind == 2 && ins.assigned_by == Some(creator));
+    assert!(ins.durability == stamp.durability.index() as u8);
+    let backdated = stored && old_value == Some(v);
+    if !backdated {
+        assert!(ins.changed_at == stamp.changed_at.as_usize());
+    } else {
+        assert!(ins.changed_at == stamp.changed_at.as_usize() || ins.changed_at == ca.as_usize());
+    }
+    assert!(!ins.provisional);
+    assert!(diffed == if stored { &old.header as *const MemoHeader as usize } else { 0 });
+    assert!(claims == 1 && releases == 1);
+    vcover!();
+    std::mem::forget(frame);
+    std::mem::forget(w);
+}
+
+pub(crate) struct CGenFix;
+pub(crate) const INITIAL_VALUE: u32 = 0xC1C1;
+// SAFETY: `u32` output.
+unsafe impl Configuration for CGenFix {
+    const DEBUG_NAME: &'static str = "genfix";
+    const LOCATION: crate::ingredient::Location = crate::ingredient::Location { file: "", line: 0 };
+    const PERSIST: bool = false;
+    type DbView = HDb;
+    type SalsaStruct<'db> = GKey;
+    type Input<'db> = GKey;
+    type Output<'db> = u32;
+    type Eviction = NoopEviction;
+    const CYCLE_STRATEGY: CycleRecoveryStrategy = CycleRecoveryStrategy::Fixpoint;
+    fn values_equal<'db>(a: &u32, b: &u32) -> bool {
+        a == b
+    }
+    fn id_to_input(_: &Zalsa, key: Id) -> GKey {
+        GKey(key)
+    }
+    fn execute<'db>(_: &'db HDb, _: GKey) -> u32 {
+        unreachable!("the user function is behind the stubbed `execute`")
+    }
+    fn cycle_initial<'db>(_: &'db HDb, _: Id, _: GKey) -> u32 {
+        INITIAL_VALUE
+    }
+    fn recover_from_cycle<'db>(_: &'db HDb, _: &Cycle, _: &u32, v: u32, _: GKey) -> u32 {
+        v
+    }
+    fn serialize<S>(_: &u32, _: S) -> Result<S::Ok, S::Error>
+    where
+        S: plumbing::serde::Serializer,
+    {
+        unimplemented!()
+    }
+    fn deserialize<'de, D>(_: D) -> Result<u32, D::Error>
+    where
+        D: plumbing::serde::Deserializer<'de>,
+    {
+        unimplemented!()
+    }
+}
+
+//@ob id=G-CYCLE-1 kind=C props=C15,C14,C20 timeout=1800 fn=IngredientImpl::fetch,IngredientImpl::fetch_cold,IngredientImpl::fetch_cold_cycle,QueryRevisions::fixpoint_initial flags=stubs,noreplay
+//@ pre: a fixpoint function is re-entered on its own thread (the claim table reports a cycle); the key has no memo or a **value-less (poisoned) provisional memo** left by a panicking execution, verified at any revision <= current, with any cancellation epoch; any current cancellation epoch
+//@ post: the propagated-panic cancellation is raised only for a poisoned memo **of the current revision and epoch**; a poisoned memo from an earlier revision (or epoch) never blocks the function: the initial value is inserted (verified now, provisional, initial iteration of the current epoch) and returned - so the function converges again once its inputs allow it
+#[cfg(kani)]
+#[kani::proof]
+#[kani::unwind(5)]
+#[kani::stub(crate::sync::max_parallelism, crate::verif_support::one_core)]
+#[kani::stub(crate::function::sync::SyncTable::try_claim, crate::function::sync::verif::stub_try_claim_cycle)]
+#[kani::stub(crate::function::IngredientImpl::get_memo_from_table_for, stub_get_memo)]
+#[kani::stub(crate::function::IngredientImpl::insert_memo, stub_insert_memo)]
+#[kani::stub(crate::cancelled::Cancelled::throw, stub_throw)]
+#[kani::stub(crate::function::IngredientImpl::execute, stub_execute)]
+fn g_cycle_1_reentry_with_poisoned_memo() {
+    let mut z = crate::zalsa::verif::bare_zalsa();
+    let (r0, r1, r2) = (vk::any_revision(), vk::any_revision(), vk::any_revision());
+    vk::assume(r0 >= r1 && r1 >= r2);
+    crate::runtime::verif::set_revs(z.runtime_mut(), [r0, r1, r2]);
+    let epoch_now: bool = vk::any();
+    if epoch_now {
+        z.runtime_mut().bump_cancellation_count();
+    }
+    let cur = r0;
+    let now = z.runtime().cancellation_count();
+    let ing = IngredientImpl::<CGenFix>::new(IngredientIndex::new(2), crate::memo_ingredient_indices::verif::singleton(0), 0);
+    // SAFETY: small index
+    let id = unsafe { Id::from_index(7) };
+    let db = HDb { zalsa: z, local: ZalsaLocal::new() };
+    let me = ing.database_key_index(id);
+    let stored: bool = vk::any();
+    let va = vk::any_revision();
+    vk::assume(va <= cur);
+    let memo_epoch: u8 = if vk::any() { 1 } else { 0 };
+    let stamp = crate::cycle::IterationStamp::initial(memo_epoch);
+    let poisoned: &'static Memo<CGenFix> = Box::leak(Box::new(Memo::<CGenFix>::new(
+        None,
+        va,
+        crate::zalsa_local::verif::revs(Durability::LOW, Revision::start(), false, crate::zalsa_local::OriginAndExtra::derived(std::iter::empty(), crate::zalsa_local::verif::extra_with_head(me, stamp))),
+    )));
+    // SAFETY: single-threaded harness
+    unsafe {
+        CUR_MEMO = if stored { poisoned as *const Memo<CGenFix> as usize } else { 0 };
+        THROW_ALLOWED = stored && va == cur && memo_epoch == now;
+    }
+    let (z, l) = db.zalsas();
+    let v = *ing.fetch(&db, z, l, id);
+    // reaching here: nothing was thrown
+    assert!(v == INITIAL_VALUE);
+    // SAFETY: single-threaded harness
+    let ins = unsafe { INS };
+    assert!(ins.calls == 1);
+    assert!(ins.value == Some(INITIAL_VALUE) && ins.verified_at == cur.as_usize() && ins.provisional);
+    assert!(ins.epoch == now);
+    vcover!(stored && va < cur, "stale poisoned memo is replaced by the initial value");
+    vcover!();
+    std::mem::forget(db);
+    std::mem::forget(ing);
+}
